@@ -421,9 +421,15 @@ class MGraph:
 
     def get_eid(self, v1: Any, v2: Any, directed: bool = True, error: bool = True) -> int:
         a, b = self._vid(v1), self._vid(v2)
-        for i, (s, t, _x) in enumerate(self._e):
-            if (s == a and t == b) or (not directed and s == b and t == a):
-                return i
+        # with parallel edges the library answers with the highest id among the edges a -> b, and only if there is none (and the
+        # direction is to be ignored) with the highest id among b -> a (measured on 3 000 random multigraphs, witness/migraph_diff.py)
+        fwd = [i for i, (s, t, _x) in enumerate(self._e) if s == a and t == b]
+        if fwd:
+            return fwd[-1]
+        if not directed:
+            bwd = [i for i, (s, t, _x) in enumerate(self._e) if s == b and t == a]
+            if bwd:
+                return bwd[-1]
         if error:
             raise MGraphError("InternalError", "Cannot get edge ID, no such edge")
         return -1
